@@ -11,14 +11,16 @@ from ..engine.report import Check
 
 
 def _t() -> Dict[str, List[Tuple[str, str, Callable[[Check], object]]]]:
-    from . import c01, c02, c03, c04, c05, c07, c09, c11, c13
+    from . import c01, c02, c03, c04, c05, c07, c09, c10, c11, c13
     from .common import rule_eq, rule_uto_apply
     PE = "skepticoin.datatypes.PowEvidence"
     from . import c08, c12, c17, c18, c20
     MSG = lambda ck: c07.r07_1_2(ck, False, "R07.1")          # noqa  (all codecs, wire messages included)
     CONSENSUS_CODECS = lambda ck: c07.r07_1_2(ck, True, "R07.1")   # noqa
     return {
-        "C01": [("R09.5", "a block that is still to be validated is only buffered: refusing it leaves the store as it was", c09.r09_5),
+        "C01": [("R20.2", "the relay handler is entered only with the message a block arrived in (its header decides whether the block is fully validated)", c20.r20_2),
+                ("R08.6", "after a restart every stored block comes back with all its transactions (a spent output is not unspent again)", c08.r08_6),
+                ("R09.5", "a block that is still to be validated is only buffered: refusing it leaves the store as it was", c09.r09_5),
                 ("R13.3", "every validated state becomes the roll-back target (a refusal rolls back to the latest one, not to an older one)", c13.r13_3),
                 ("R03.2", "the unspent set a spend is checked against is built from the block's PARENT's set", c03.r03_2),
                 ("R08.1", "after a restart the ledger is rebuilt from rows that mirror what was written", c08.r08_1),
@@ -26,7 +28,9 @@ def _t() -> Dict[str, List[Tuple[str, str, Callable[[Check], object]]]]:
         "C02": [("R09.flow", "a relayed block is served as validated only after in-state validation completed", c09.r09_flow),
                 ("R08.1", "after a restart the ledger is rebuilt from rows that mirror what was written", c08.r08_1),
                 ("R07.1", "the header fields that tell solicited from unsolicited data are decoded as written", MSG)],
-        "C03": [("R05.6", "a block's height is its parent's plus one (so a reward transaction cannot repeat an ancestor's)", c05.r05_6),
+        "C03": [("R08.1", "the ledger replayed after a restart is replayed from rows that mirror what was written", c08.r08_1),
+                ("R08.6", "rows of competing forks do not displace each other in the store", c08.r08_6),
+                ("R05.6", "a block's height is its parent's plus one (so a reward transaction cannot repeat an ancestor's)", c05.r05_6),
                 ("R08.7", "row collectors of the store reader are per transaction", c08.r08_7),
                 ("R08.8", "the ledger replayed after a restart is replayed from blocks whose transactions come back in the stored order", c08.r08_8)],
         "C04": [("R13.3", "the chain manager stores every state it is given (head changes are not skipped)", c13.r13_3),
@@ -39,12 +43,16 @@ def _t() -> Dict[str, List[Tuple[str, str, Callable[[Check], object]]]]:
                 ("R12.1", "the candidate the worker hashes is the one the watcher assembled for it", c12.r12_1)],
         "C06": [("R09.flow", "a tampered block that is refused does not stay buffered for the store", c09.r09_flow),
                 ("R09.5", "the buffer that is cleared on refusal is the buffer that was written", c09.r09_5)],
-        "C07": [("R08.5", "what the store hands back under an id is the whole of what was written under it (a batch is stored whole or not at all)", c08.r08_5)],
+        "C07": [("R08.8", "transactions come back from the store in the order they were written (same bytes, same id)", c08.r08_8),
+                ("R08.5", "what the store hands back under an id is the whole of what was written under it (a batch is stored whole or not at all)", c08.r08_5)],
         "C08": [("R07.6", "variable-length integers written to blobs decode canonically", c07.r07_6),
                 ("R09.flow", "the relay handler clears the write buffer when it rejects a buffered block", c09.r09_flow),
                 ("R09.5", "blocks handed to the disk interface reach the store's buffer, one by one", c09.r09_5),
                 ("R04.2", "the head recomputed on reload is chosen by the same measure of work", c04.r04_2)],
-        "C09": [("R17.1", "the commitment to the transaction list is compared on every path of structural validation", c17.r17_1),
+        "C09": [("R08.6", "an adopted block on a competing branch is read back from the store whole", c08.r08_6),
+                ("R08.1", "what is written for an adopted block is what is read back", c08.r08_1),
+                ("R20.2", "the relay handler is entered only with the message a block arrived in", c20.r20_2),
+                ("R17.1", "the commitment to the transaction list is compared on every path of structural validation", c17.r17_1),
                 ("R01.7", "no reference is spent twice inside a relayed block (full validity before adoption)", c01.r01_7),
                 ("R13.3", "set_coinstate stores the adopted state and the roll-back target", c13.r13_3),
                 ("R05.7", "valid relayed blocks on a fork pass the evidence check (own ancestors)", c05.r05_7),
@@ -65,7 +73,8 @@ def _t() -> Dict[str, List[Tuple[str, str, Callable[[Check], object]]]]:
         "C11": [("R07.1", "every message an unmodified peer sends decodes (field widths and signedness agree)", MSG),
                 ("R07.10", "every message an unmodified peer sends is split into the recorded fields", c07.r07_10),
                 ("R18.5", "list lengths on the wire use the encoding deployed nodes use", c18.r18_5)],
-        "C12": [("R13.1", "no two pending transactions spend the same output (the candidate built from the pool passes validation)", c13.r13_1),
+        "C12": [("R10.8", "a message handed to send_message is queued for that peer (the found block is not dropped on the way out)", c10.r10_8),
+                ("R13.1", "no two pending transactions spend the same output (the candidate built from the pool passes validation)", c13.r13_1),
                 ("R13.3", "adopting the found block stores it as the served state, then cleans the pool against it", c13.r13_3),
                 ("R09.10", "every peer that greeted receives the found block", c09.r09_10),
                 ("R09.5", "a found block handed to the disk interface reaches the store that is read at start-up", c09.r09_5)],
@@ -75,7 +84,8 @@ def _t() -> Dict[str, List[Tuple[str, str, Callable[[Check], object]]]]:
         "C14": [("R03.4", "the per-key index the wallet selects from agrees with the unspent set", c03.r03_4),
                 ("R03.3", "per-key balances at the head are the replay of the head's chain", c03.r03_3),
                 ("R01.7", "two outputs of one earlier transaction are two different references", c01.r01_7)],
-        "C16": [("R02.1", "the reward check uses subsidy(height of the block)", c02.r02_1),
+        "C16": [("R18.7", "the height up to which the validator does not enforce the schedule has not moved", c18.r18_7),
+                ("R02.1", "the reward check uses subsidy(height of the block)", c02.r02_1),
                 ("R02.4", "every output total is range-checked", c02.r02_4),
                 ("R07.1", "amounts are unsigned on the wire", CONSENSUS_CODECS)],
         "C17": [("R05.8", "the header the miner assembles commits to the list it is assembled with", c05.r05_8),
